@@ -192,4 +192,74 @@ def body_from_data_contract():
                 statement="each request media type yields, in order, a Body (form -> data, multipart -> files, octet-stream -> "
                           "content, json/+json -> json; content_type is the document's own string) or a ParseError (unparseable "
                           "/ unsupported media type, missing or failing schema); none is skipped", props=["C03", "C07", "C16"])
-    return FnContract(f"{B}:body_from_data", [Case("two-media-types", make, [cl], raises=(), props=["C03", "C07", "C16"])])
+
+    def make_model(I):
+        """one media type whose schema is a model that may already be marked as a multipart body by an earlier operation"""
+        import openapi_python_client.parser.bodies as M
+        from openapi_python_client.parser.properties import ModelProperty
+        from openapi_python_client.parser.properties.schemas import Schemas
+        from pyvc.symexec import SBool, SDict
+        S = z3.StringSort()
+        ct = SStr(z3.Const("media_type", S))
+        simp = SStr(z3.Const("classified", S))
+        I.contracts["openapi_python_client.utils:get_content_type"] = lambda I2, a, k: simp
+        already = SBool(z3.Const("already_multipart", z3.BoolSort()))
+        info = SOpaque("class_info", attrs={"name": "M", "module_name": "m"})
+        prop = SObj(ModelProperty, {"name": "body", "required": True, "default": None, "python_name": "body", "description": "",
+                                    "example": None, "class_info": info, "data": SOpaque("data"), "roots": SOpaque("roots"),
+                                    "required_properties": None, "optional_properties": None, "relative_imports": None,
+                                    "lazy_imports": None, "additional_properties": None, "is_multipart_body": already})
+        other = SOpaque("another class")
+        schemas = SObj(Schemas, {"classes_by_reference": SOpaque("cbr"), "dependencies": SOpaque("deps"),
+                                 "classes_by_name": SDict({"M": prop, "Other": other}), "models_to_process": SList([]),
+                                 "errors": SList([])})
+        I.contracts["openapi_python_client.parser.properties:property_from_data"] = lambda I2, a, k: STuple([prop, k["schemas"]])
+        media = SOpaque("media", attrs={"media_type_schema": SOpaque("schema")})
+        pairs = SList([STuple([ct, media])])
+        content = SOpaque("content", cls=dict, attrs={"items": SFunc("model", lambda I2, a, k: pairs)})
+        content.length = lambda I2: 1
+        body = SOpaque("request body", cls=object, attrs={"content": content})
+        I.contracts[f"{B}:_resolve_reference"] = lambda I2, a, k: body
+        data = SOpaque("operation", attrs={"request_body": SOpaque("rb")})
+        kw = dict(data=data, schemas=schemas, request_bodies=SOpaque("rbs"), config=SOpaque("config"),
+                  endpoint_name=SStr(z3.Const("endpoint_name", S)))
+        return SFunc("pyfunc", M.body_from_data), [], kw, {"simp": simp, "already": already, "prop": prop, "schemas": schemas,
+                                                            "other": other, "M": M}
+
+    def sticky(ctx):
+        I, i = ctx.I, ctx.inputs
+        M = i["M"]
+        out, schemas2 = ctx.value.items
+        if not isinstance(out, SList) or len(out.items) != 1:
+            return False
+        res = out.items[0]
+        if not (isinstance(res, SObj) and res.cls is M.Body):
+            return True          # unsupported media type: nothing registered (covered by the other case)
+        is_files = res.fields["body_type"] is M.BodyType.FILES
+        p = res.fields["prop"]
+
+        def flag(x):
+            f = x.fields.get("is_multipart_body") if isinstance(x, SObj) else None
+            return f.t if hasattr(f, "t") else (z3.BoolVal(bool(f)) if isinstance(f, bool) else None)
+        want = z3.BoolVal(True) if is_files else i["already"].t
+        fp = flag(p)
+        if fp is None:
+            return False
+        conds = [fp == want]
+        table = schemas2.fields["classes_by_name"] if isinstance(schemas2, SObj) else None
+        if table is None or set(table.items) != {"M", "Other"} or table.items["Other"] is not i["other"]:
+            return False
+        ft = flag(table.items["M"])
+        if ft is None:
+            return False
+        conds.append(ft == want)
+        # the argument objects themselves are not edited
+        conds.append(z3.BoolVal(i["prop"].fields["is_multipart_body"] is i["already"]))
+        return z3.And(*conds)
+    cl2 = Clause("multipart-mark-is-sticky", sticky,
+                 statement="a model used as a multipart body is (re-)registered with is_multipart_body = True; used with any other "
+                           "media type it keeps the mark it had (an earlier operation's to_multipart is never taken away, so the "
+                           "model's module does not depend on the order of the operations); every other class entry is kept",
+                 props=["C12", "C08", "C03"])
+    return FnContract(f"{B}:body_from_data", [Case("two-media-types", make, [cl], raises=(), props=["C03", "C07", "C16"]),
+                                              Case("model-body", make_model, [cl2], raises=(), props=["C12", "C08", "C03"])])
